@@ -87,6 +87,38 @@ pub fn run(r: &Req) -> Option<String> {
             }
         }};
     }
+    if r.s("p") == "nds" {
+        // the caller's buffer is a STRIDED uninitialised ndarray view (every second cell of a sentinel-filled
+        // base): every slot of the view must be written, no cell outside it may be
+        type OA = crate::backends::Array1<f64>;
+        let strided = |t: String| -> String {
+            let w = if t.contains("CLOBBERED") { "W:oob:strided" } else if t.contains("UNWRITTEN") { "W:missing:strided" } else { "W:ok" };
+            format!("R:ok;S:ok;{}", w)
+        };
+        let (view, view2) = (&xs, &ys);
+        let res = std::panic::catch_unwind(std::panic::AssertUnwindSafe(|| -> String {
+            if super::DRIVERS.contains(&f) {
+                match f {
+                    "rolling_apply" => crate::__roll_finish_strided!(r, len, OA, U, out, view.rolling_apply::<OA, U, _>(w, |_rm, v| v, out)),
+                    "rolling_apply_idx" => crate::__roll_finish_strided!(r, len, OA, U, out, view.rolling_apply_idx::<OA, U, _>(w, |_s, _e, v| v, out)),
+                    "rolling2_apply" => crate::__roll_finish_strided!(r, len, OA, U, out, view.rolling2_apply::<OA, U, _, _, _>(view2, w, |_rm, v| v.0 + v.1, out)),
+                    "rolling2_apply_idx" => crate::__roll_finish_strided!(r, len, OA, U, out, view.rolling2_apply_idx::<OA, U, _, _, _>(view2, w, |_s, _e, v| v.0 + v.1, out)),
+                    "rolling_custom" => crate::__roll_finish_strided!(r, len, OA, U, out, view.rolling_custom::<OA, U, _>(w, |_sl| 1.0, out)),
+                    _ => crate::__roll_finish_strided!(r, len, OA, U, out, view.rolling2_custom::<OA, U, _, _, _>(view2, w, |_a, _b| 2.0, out)),
+                }
+            } else if crate::rollrun::ROLL1_VALID.contains(&f) {
+                crate::__roll_finish_strided!(r, len, OA, U, out, roll1_valid_call!(f, view, OA, U, out, w, mp, r).unwrap())
+            } else if crate::rollrun::ROLL1_PLAIN.contains(&f) {
+                crate::__roll_finish_strided!(r, len, OA, U, out, roll1_plain_call!(f, view, OA, U, out, w, mp, r).unwrap())
+            } else {
+                crate::__roll_finish_strided!(r, len, OA, U, out, roll2_call!(f, view, view2, OA, U, out, w, mp, r).unwrap())
+            }
+        }));
+        return Some(match res {
+            Ok(t) => format!("ok;{}", strided(t)),
+            Err(_) => "P;R:ok;S:ok;W:ok".to_string(),
+        });
+    }
     if super::DRIVERS.contains(&f) {
         let with_reads = log_in && !f.contains("custom");
         return Some(on_input!(view, view2 => observed!(with_reads, {
@@ -190,10 +222,10 @@ pub fn generate(tier: &str, _rng: &mut Rng) -> (Vec<String>, bool) {
         for len in 0..=maxlen + 1 {
             for w in 0..=len + 3 {
                 for input in ["log", "vec", "deque1", "deque2"] {
-                    for p in ["ret", "out"] {
-                        if input.starts_with("deque") && *f == "rolling2_custom" && false { continue; }
+                    for p in ["ret", "out", "nds"] {
+                        if p == "nds" && input != "vec" { continue; }
                         let two = f.contains('2');
-                        let len2s: Vec<usize> = if two { vec![len, len.saturating_sub(1), len + 1, len + 2, len + 3, 0] } else { vec![len] };
+                        let len2s: Vec<usize> = if two && p != "nds" { vec![len, len.saturating_sub(1), len + 1, len + 2, len + 3, 0] } else if two { vec![len, len + 1] } else { vec![len] };
                         for len2 in len2s {
                             // a shorter second series on a real Vec is undefined behaviour caught only by
                             // the debug-profile precondition check (abort): still run it — ABORT is a verdict
@@ -217,6 +249,8 @@ pub fn generate(tier: &str, _rng: &mut Rng) -> (Vec<String>, bool) {
                     for (k, mp) in mps.into_iter().enumerate() {
                         let input = ["log", "vec", "deque1", "log", "vec", "deque3"][(pat as usize + w + k) % 6];
                         let p = if (pat as usize / 2 + w + k) % 2 == 0 { "ret" } else { "out" };
+                        // every fifth case on a Vec: the caller's buffer is a strided ndarray view
+                        let (input, p) = if input == "vec" && (pat as usize + 2 * w + k) % 5 == 0 { ("vec", "nds") } else { (input, p) };
                         let mut l = format!("C10 f={} in={} p={} w={} mp={} xs={}{}", f.name, input, p, w, mp_tok(mp), series(len, pat, VALS_A, f.nullable), f.extra);
                         if f.arity == 2 {
                             l.push_str(&format!(" ys={}", series(len, pat.rotate_left(1) ^ (pat >> 1), VALS_B, f.nullable)));
@@ -252,5 +286,5 @@ pub fn generate(tier: &str, _rng: &mut Rng) -> (Vec<String>, bool) {
 
 pub fn rule(tier: &str) -> String {
     let n = if tier == "thorough" { 7 } else { 5 };
-    format!("exhaustive: (a) the 6 driver entry points on the instrumented input (LogVec: logs/validates every uget/uslice), on real Vec and on real VecDeque with a rotated (wrapped) ring buffer, returned and caller-buffer paths into the instrumented output (LogOut: counts writes per slot, checked at assume_init), len 0..={}, window 0..=len+3, second series equal / shorter / longer by 1,2,3 / empty; (b) all {} catalogued rolling entry points, every null subset up to len {}, windows 0..=len+3, min_periods in {{omitted,0,1,w/2,w-1,w}}; (c) vrank / varg_partition / vpartition / vquantile over {{null,1,2}}^len (ties, nulls anywhere), kth 0..=len+1, all flags. Oracle applied to the logs: reads < len, 0<=start<=end<=len, every slot written exactly once when the call returns. non-trivial = len >= 2.", n + 1, ROLL.len(), n)
+    format!("exhaustive: (a) the 6 driver entry points on the instrumented input (LogVec: logs/validates every uget/uslice), on real Vec and on real VecDeque with a rotated (wrapped) ring buffer, returned and caller-buffer paths into the instrumented output (LogOut: counts writes per slot, checked at assume_init), len 0..={}, window 0..=len+3, second series equal / shorter / longer by 1,2,3 / empty, and on a real Vec into a STRIDED uninitialised ndarray view (every second cell of a sentinel-filled base: every slot of the view written, no cell outside it touched); (b) all {} catalogued rolling entry points, every null subset up to len {}, windows 0..=len+3, min_periods in {{omitted,0,1,w/2,w-1,w}} (every fifth Vec case into the strided ndarray view); (c) vrank / varg_partition / vpartition / vquantile over {{null,1,2}}^len (ties, nulls anywhere), kth 0..=len+1, all flags. Oracle applied to the logs: reads < len, 0<=start<=end<=len, every slot written exactly once when the call returns. non-trivial = len >= 2.", n + 1, ROLL.len(), n)
 }
